@@ -2,7 +2,8 @@
  *
  *   harness <script>
  * script:  `W <nints> <disp_unit>` (collective: frees the current window and creates a new one of nints ints, initialised
- * to 1000*(rank+1)+i: starts a new case); then one command per line `<rank|*> <cmd> <args...>`; every rank executes, in
+ * to 1000*(rank+1)+i: starts a new case; <disp_unit> is one number, or `du_0,du_1,...` = the disp_unit that rank 0, 1, ...
+ * passes to MPI_Win_create: MPI lets every rank choose its own; a shorter list is cycled); then one command per line `<rank|*> <cmd> <args...>`; every rank executes, in
  * file order, the lines addressed to it (or to `*`).  Call ids are chosen by the generator (unique per run).
  *   lock t | slock t | unlock t | lockall | unlockall | flush t | flushall | fence <assert> | barrier | wait <usec>
  *   put  id t disp n v1..vn        MPI_Put of n ints
@@ -89,7 +90,16 @@ int main(int argc, char** argv)
         exit(3);
       }
       wn   = atoi(tok[1]);
-      du   = atoi(tok[2]);
+      { /* the disp_unit of THIS rank: entry (rank mod list length) of the comma-separated list */
+        int dul[64], ndu = 0;
+        for (char* q = tok[2]; q && *q && ndu < 64;) {
+          dul[ndu++] = atoi(q);
+          q = strchr(q, ',');
+          if (q)
+            q++;
+        }
+        du = ndu > 0 ? dul[rank % ndu] : 4;
+      }
       base = malloc(sizeof(int) * (wn > 0 ? wn : 1));
       for (int i = 0; i < wn; i++)
         base[i] = 1000 * (rank + 1) + i;
